@@ -48,7 +48,7 @@ func getCP() (*counterparty, *Host) {
 		cp := &counterparty{c: c, times: map[int64]time.Time{}}
 		h := sha256.Sum256([]byte("packet"))
 		cp.value = h[:]
-		for i := 0; i < 7; i++ {
+		for i := 0; i < 10; i++ { // (the C07 searches use heights up to 7; C18 installs at 5 and 8 and back-fills in between)
 			if c.Height()+1 == 4 {
 				cp.commitAt = 4
 				w.Do(c, func(ctx sdk.Context) {
